@@ -33,7 +33,42 @@ def c13_nontrivial(inp, outp):
     return n >= 2 * k + 2
 
 
+def norm_fault(x):
+    return re.sub(r'fault:\w+', 'fault', x)
+
+
+def compare_run(inp, impl_out, model_out):
+    """strategy runs: identical canonical output; when either side faults only the fact of the fault is compared"""
+    a, b = norm_fault(impl_out), norm_fault(model_out)
+    if a.startswith('res=fault') or b.startswith('res=fault'):
+        return a.split(' ')[0] == b.split(' ')[0]
+    return a == b
+
+
+def run_nontrivial(inp, outp):
+    # a run that published at least one round with a completed probe
+    return 'rounds=-' not in outp and 'C:' in outp
+
+
+RUN_RULE = ('closed-loop simulated traces through the real Strategy::run (Tracer::verif_run_with_network) over a scripted Network under a virtual clock: '
+            'random builder-accepted configuration (protocol x family x strategy x port direction x first/max ttl x max_inflight x initial sequence incl. wrap boundaries x timing), '
+            'random topology (1..12 hops, silent / rate-limited / duplicating hops, ECMP alternate path, unreachable target), delays relative to read timeout / min / max / grace, '
+            'adversarial injections (foreign trace ids / targets / ports, never-sent sequences around the window), transient and fatal send / receive faults; '
+            'the recorded interaction trace is replayed through the extracted model; non-trivial = at least one published round with a completed probe; distinct = distinct recorded trace')
+
+
+def strat_prop(tag, extra_modes=()):
+    return dict(crates=['hcore'], modes=[('hcore', 'run')] + [('hcore', m) for m in extra_modes],
+                nontrivial=run_nontrivial, rule=RUN_RULE, compare=compare_run, oracle_tag=tag,
+                explanation='sampled traces; the theorems quantify over all histories')
+
+
 PROPS = {
+    'C03': strat_prop('C03'),
+    'C06': strat_prop('C06'),
+    'C07': strat_prop('C07'),
+    'C08': strat_prop('C08'),
+    'C09': strat_prop('C09'),
     'C13': dict(
         crates=['hcore'], modes=[('hcore', 'c13')],
         nontrivial=c13_nontrivial,
